@@ -25,7 +25,8 @@ pub open spec fn unit_conv(u: Unit) -> Option<Conversion> {
 
 /// table facts every derived unit obeys (proved per closure in unit TABLES): only base units, small coefficients
 pub open spec fn dim_table_ok(u: Unit) -> bool {
-    forall|k: Unit| -8 <= #[trigger] udim(u, k) <= 8 && (udim(u, k) != 0 ==> is_base(k))
+    (forall|k: Unit| -8 <= #[trigger] udim(u, k) <= 8 && (udim(u, k) != 0 ==> is_base(k)))
+    && (exists|k: Unit| #[trigger] udim(u, k) != 0)
 }
 
 /// exponent of base unit `k` in a compound (a key-ordered sequence of (unit, state)):  sum of power * udim
